@@ -467,6 +467,8 @@ public:
 
 	void Clear() noexcept
 	{
+		if (mCrew.IsNull())
+			return;
 		mIndexes.ClearRaws();
 		pvDestroyRaws();
 		mRaws.Clear();
